@@ -496,7 +496,7 @@ impl<N: ComplexField> RungeKuttaCoefficients<6> for RKCoefficients45<N> {
             -Self::RealField::from_u8(8)? / Self::RealField::from_u8(27)?,
             Self::RealField::from_u8(2)?,
             -Self::RealField::from_u16(3544)? / Self::RealField::from_u16(2565)?,
-            Self::RealField::from_u16(1859)? / Self::RealField::from_u16(4014)?,
+            Self::RealField::from_u16(1859)? / Self::RealField::from_u16(4104)?,
             -Self::RealField::from_u8(11)? / Self::RealField::from_u8(40)?,
             zero,
         ]))
